@@ -42,7 +42,8 @@ CLAIMED = {
              note="B"),
  "C03": dict(text="Theorems over the same LTS for every schedule: history part = every stored in-scope frame after the start position up to the scan cursor, once, in order; live part = exactly "
              "the in-scope frames broadcast since the subscription (ephemeral included) with nothing skipped while the stream is open and unlagged; deliveries strictly increasing in id; history ≤ cut < live; "
-             "exactly one xs.threshold between the two parts for an unlimited non-tail follow.",
+             "exactly one xs.threshold between the two parts for an unlimited non-tail follow; at the hand-over the history part is every stored in-scope frame up to the cut, and a caught-up "
+             "reader has received exactly that, the threshold, and every in-scope frame broadcast since it subscribed.",
              design="5/C03", technique="Lean 4 invariant proof over a labelled transition system; correspondence by replaying hook-observed schedules (appends released at every reader step)",
              note="B"),
  "C11": dict(text="Theorems: with limit n ≥ 1 never more than n frames; when n are delivered and the reader's tasks have wound down the stream is closed (history thread, live task and heartbeat all "
@@ -77,19 +78,20 @@ CLAIMED = {
  "C14": dict(text="Theorems over the Lean model of one handler instance (Handler::serve / process_frame / EngineWorker; the closure is an arbitrary function of environment and frame): the closure "
              "is run for exactly the frames of its subscription that are neither its own output nor registration traffic of its name - each once, in delivery order, up to the frame that stops it; never for "
              "its own output (so it cannot feed itself), never after it stopped; the subscription holds its context's frames only and every frame appended after it subscribed; the environment of one call "
-             "is what the next starts from. Every started instance of every scenario is replayed on the model.",
+             "is what the next starts from; invocations are in increasing id order when the stream is. Every started instance of every scenario is replayed on the model.",
              design="5/C14", technique="Lean 4 proof over a model of the handler loop (closure as a parameter); correspondence by replaying each real instance's subscription on the model", note="S"),
  "C15": dict(text="Theorems: every frame a call emits carries handler_id and frame_id (written after the user's meta, so they cannot be overridden; other user keys survive) and the handler's context whatever "
              "--context said; a successful call emits the explicit appends in call order, then the return value on <name><suffix> with the configured TTL; a failing call emits nothing but one "
-             "<name>.unregistered with the error, wherever the failure sits. The run also checks that each emitted frame's content is in the CAS when a follower is handed the frame.",
+             "<name>.unregistered with the error, wherever the failure sits - also when one of its frames could not be stored; interleaved outputs of different instances separate by their stamp. The run also checks that each emitted frame's content is in the CAS when a follower is handed the frame.",
              design="5/C15", technique="Lean 4 proof over the handler model; correspondence over generated behaviour tables rendered to nushell scripts", note="S"),
  "C16": dict(text="Theorems: a later .register / .unregister of its name stops an instance (so at most one instance per context and name outlives a new registration); closure error and invalid script stop / "
              "reject it; every stop is announced by exactly one <name>.unregistered, the last frame the instance emits; a stopped instance processes nothing; start_handler subscribes before it announces, "
-             "so everything appended once <name>.registered is visible is in the subscription's live part; the start-up scan keeps one registration per (context, name). The subscribe/announce order of the "
+             "so everything appended once <name>.registered is visible is in the subscription's live part; every .register is answered by exactly one frame; a tail handler superseded before it subscribed never starts; "
+             "a started instance is handed every later .register / .unregister of its key (any resume mode) and ends stopped; the start-up scan keeps one registration per (context, name). The subscribe/announce order of the "
              "real code is read from sync points.",
              design="5/C16", technique="Lean 4 proof over the handler and serve-loop models; correspondence incl. sync-point order of subscribe vs announce", note="S"),
  "C17": dict(text="Theorems over the fold model of the start-up scan (handlers/serve.rs) keyed by (context, name): a registration is started again iff nothing later in the stored stream dropped it (characterisation "
-             "of the fold for every history); given that stops are announced (C16), that is iff its live instance was still running; replaced / failed / rejected / unregistered registrations never come back; "
+             "of the fold for every history); given that stops are announced (C16), that is iff its live instance was still running (for an instance the loop started, the coverage hypothesis is a theorem); replaced / failed / rejected / unregistered registrations never come back; "
              "frames of other contexts are irrelevant; restarts are in id order with the register frame's id; tail resumption re-executes nothing. Kill + restart scenarios compare who is announced with the model. "
              "Generators and commands: see C18/C19.",
              design="5/C17", technique="Lean 4 proof (fold characterisation + link to the instance model); correspondence over kill/restart scenarios", note="S"),
@@ -102,7 +104,7 @@ CLAIMED = {
  "C19": dict(text="Theorems over the Lean model of the command loop (commands/serve.rs; the closure is a function of definition and call frame): a call yields one <name><suffix> per value in order with the configured "
              "TTL in the caller's context, then exactly one complete - or the results before a failure and exactly one error; every frame of a call (explicit appends included) is stamped with the definition's and the call's id; "
              "a call runs the definition in force under (caller's context, name); the latest valid definition wins, an invalid one is reported once and changes nothing; undefined names do nothing; calls met in the stored "
-             "history are never run; a start-up emits only definition errors and restores exactly the definitions in force. Sequential and concurrent calls, redefinitions, byte-streamed explicit appends and restarts are run "
+             "history are never run; a start-up emits only definition errors and restores exactly the definitions in force; however the frames of concurrent calls interleave, selecting by frame_id gives back each call's frames. Sequential and concurrent calls, redefinitions, byte-streamed explicit appends and restarts are run "
              "on the real loop and compared per call.",
              design="5/C19", technique="Lean 4 proof over a model of the command loop; correspondence per call over generated definitions, concurrent bursts and restarts", note="S"),
 }
